@@ -268,44 +268,7 @@ func checkC16(c *Ctx) {
 	}
 	// the check itself: the PRESENTED certificate must carry a signature made with the key of the EXPECTED certificate
 	// (which only a holder of the shared secret can derive)
-	if f := c.fn("C16.3", dt, "", "verifyCert"); f != nil && len(f.Params) == 2 {
-		presented := "x509.ParseCertificate(" + P(f, 0) + ")#0"
-		expected := "x509.ParseCertificate(" + P(f, 1) + ")#0"
-		var check *ssa.Call
-		how := ""
-		for _, ci := range callsIn(f, nameIs("(*crypto/x509.Certificate).CheckSignatureFrom")) {
-			call := ci.(*ssa.Call)
-			if pathOf(call.Call.Args[0]) == presented && pathOf(call.Call.Args[1]) == expected {
-				check, how = call, "presented.CheckSignatureFrom(expected)"
-			}
-		}
-		for _, ci := range callsIn(f, nameIs("(*crypto/x509.Certificate).CheckSignature")) {
-			call := ci.(*ssa.Call)
-			a := call.Call.Args
-			if len(a) == 4 && pathOf(a[0]) == expected && pathOf(a[2]) == presented+".RawTBSCertificate" && pathOf(a[3]) == presented+".Signature" {
-				check, how = call, "expected.CheckSignature(alg, presented.RawTBSCertificate, presented.Signature)"
-			}
-		}
-		okk := check != nil
-		nOK := 0
-		if okk {
-			eachInstr(f, func(in ssa.Instruction) {
-				ret, ok := in.(*ssa.Return)
-				if !ok || len(ret.Results) != 1 {
-					return
-				}
-				if cst, isC := returnedValue(ret, 0, nil).(*ssa.Const); !isC || cst.Value != nil {
-					return
-				}
-				nOK++
-				if !guarded(f, ret, errAtoms(check, true)...) {
-					okk = false
-				}
-			})
-		}
-		r.Check(okk && nOK > 0, "C16.3", "verifyCert: success only if the presented certificate is signed by the expected certificate's key", f.Pos(), fnName(f), how+"; nil return dominated by its err == nil",
-			"verifyCert accepts without checking the presented certificate against the key derived from the shared secret (wrong receiver / wrong data / unchecked result): any self-signed certificate passes and a peer with a different secret completes the handshake")
-	}
+	checkVerifyCert(c, "C16.3")
 	if f := c.fn("C16.3", dt, "Listener", "verifyConnection"); f != nil {
 		var gc, vc *ssa.Call
 		for _, ci := range callsIn(f, shortIs("getCert")) {
@@ -825,4 +788,48 @@ func fieldBaseType(v ssa.Value) types.Type {
 		return v.Type()
 	}
 	return x.Type()
+}
+
+// checkVerifyCert: the DTLS peer check proves possession of the shared secret (shared by C16.3 and C02.12).
+func checkVerifyCert(c *Ctx, rule string) {
+	r := c.R
+	const dt = "pkg/dtls"
+	if f := c.fn(rule, dt, "", "verifyCert"); f != nil && len(f.Params) == 2 {
+		presented := "x509.ParseCertificate(" + P(f, 0) + ")#0"
+		expected := "x509.ParseCertificate(" + P(f, 1) + ")#0"
+		var check *ssa.Call
+		how := ""
+		for _, ci := range callsIn(f, nameIs("(*crypto/x509.Certificate).CheckSignatureFrom")) {
+			call := ci.(*ssa.Call)
+			if pathOf(call.Call.Args[0]) == presented && pathOf(call.Call.Args[1]) == expected {
+				check, how = call, "presented.CheckSignatureFrom(expected)"
+			}
+		}
+		for _, ci := range callsIn(f, nameIs("(*crypto/x509.Certificate).CheckSignature")) {
+			call := ci.(*ssa.Call)
+			a := call.Call.Args
+			if len(a) == 4 && pathOf(a[0]) == expected && pathOf(a[2]) == presented+".RawTBSCertificate" && pathOf(a[3]) == presented+".Signature" {
+				check, how = call, "expected.CheckSignature(alg, presented.RawTBSCertificate, presented.Signature)"
+			}
+		}
+		okk := check != nil
+		nOK := 0
+		if okk {
+			eachInstr(f, func(in ssa.Instruction) {
+				ret, ok := in.(*ssa.Return)
+				if !ok || len(ret.Results) != 1 {
+					return
+				}
+				if cst, isC := returnedValue(ret, 0, nil).(*ssa.Const); !isC || cst.Value != nil {
+					return
+				}
+				nOK++
+				if !guarded(f, ret, errAtoms(check, true)...) {
+					okk = false
+				}
+			})
+		}
+		r.Check(okk && nOK > 0, rule, "verifyCert: success only if the presented certificate is signed by the expected certificate's key", f.Pos(), fnName(f), how+"; nil return dominated by its err == nil",
+			"verifyCert accepts without checking the presented certificate against the key derived from the shared secret (wrong receiver / wrong data / unchecked result): any self-signed certificate passes and a peer with a different secret completes the handshake")
+	}
 }
